@@ -10,9 +10,11 @@ Open Scope Z_scope.
 Open Scope string_scope.
 
 (* EVERY operation string of the shipped ISA data bases: for every instruction matching the entry's operand pattern (all
-   register choices incl. the same register in several positions, all immediates), get_reg_changes returns a dict, no
-   reported origin is another reported register, and for every architectural step of the instruction a reported
-   (name, value) means  new reg = old name + value,  None means unknown, unreported registers are unchanged *)
+   register choices incl. the same register in several positions, all immediates), get_reg_changes (before the sub-register
+   rule) returns a dict, no reported origin is another reported register, origins are register operands, and whatever
+   the architectural effect (d, v) is: d is reported, nothing but d is reported, and a reported (name, value) for d
+   satisfies  v = old name + value  (None = unknown).  Read against register files by name in C06_operations_tracking_sound,
+   against architectural registers with sub-register aliasing in C06_operations_sound_with_aliasing *)
 Theorem C06_operations_sound : Forall entry_sound operations.
 Proof.
   unfold operations.
@@ -35,12 +37,13 @@ Proof. discriminate. Qed.
 
 (* composition with Proofs/MemDep.v: the hypothesis `apply_change` / `describes` of C06_tracking_sound is discharged for
    every instruction of the table -- the tracked state after KernelDG._update_reg_changes describes the register file
-   after the instruction ... *)
+   after the instruction (register files by name, unbounded integers; `fulls` = the full-width names reported for
+   written sub-registers, none of them an operand of the instruction) ... *)
 Theorem C06_operations_tracking_sound : forall e, In e operations ->
-  forall ops, matches (oe_pat e) ops ->
+  forall ops fulls, matches (oe_pat e) ops -> fulls_fresh ops fulls ->
   forall s rho0 rho rho',
     describes s rho0 rho -> arch_step (oe_x86 e) (oe_mnem e) ops rho rho' ->
-    exists l cs, get_reg_changes true (pattern_dests (oe_pat e) ops) ops (Some (entry_of e)) false = RcOk l /\
+    exists l cs, get_reg_changes true (pattern_dests (oe_pat e) ops) fulls ops (Some (entry_of e)) false = RcOk l /\
                  to_changes l = Some cs /\ describes (update_changes s cs) rho0 rho'.
 Proof.
   intros e He. apply entry_tracking_sound. pose proof C06_operations_sound as H. rewrite Forall_forall in H. exact (H e He).
@@ -49,10 +52,10 @@ Print Assumptions C06_operations_tracking_sound.
 
 (* ... and a store->load link reported after it implies equal addresses for every register file *)
 Theorem C06_operations_link_sound : forall e, In e operations ->
-  forall ops, matches (oe_pat e) ops ->
+  forall ops fulls, matches (oe_pat e) ops -> fulls_fresh ops fulls ->
   forall s rho0 rho rho',
     describes s rho0 rho -> arch_step (oe_x86 e) (oe_mnem e) ops rho rho' ->
-    exists l cs, get_reg_changes true (pattern_dests (oe_pat e) ops) ops (Some (entry_of e)) false = RcOk l /\
+    exists l cs, get_reg_changes true (pattern_dests (oe_pat e) ops) fulls ops (Some (entry_of e)) false = RcOk l /\
                  to_changes l = Some cs /\
                  forall mem src, memload_one mem (update_changes s cs) src = true ->
                                  (match m_off src with OSym => False | _ => True end) ->
@@ -62,40 +65,83 @@ Proof.
 Qed.
 Print Assumptions C06_operations_link_sound.
 
-(* registers that are not destinations are never reported; every destination register is reported exactly once *)
-Theorem C06_regchanges_only_destinations : forall dests ops isa l,
-  get_reg_changes true dests ops isa false = RcOk l ->
-  NoDup (map fst l) /\ forall r, In r (map fst l) <-> In r dests.
+(* the same table against the semantics WITH sub-register aliasing and wrap-around (any assignment of names to architectural
+   registers `fam`, view widths `width`, full-width names `full_of`): when the `fulls` input is right, every reported change
+   holds modulo the width of the reported register and every full-width register that is not reported is unchanged *)
+Theorem C06_operations_sound_with_aliasing : forall fam width full_of e, In e operations ->
+  forall ops fulls, matches (oe_pat e) ops -> fulls_ok fam full_of (pattern_dests (oe_pat e) ops) fulls ->
+  exists l, get_reg_changes true (pattern_dests (oe_pat e) ops) fulls ops (Some (entry_of e)) false = RcOk l /\
+            forall sg sg', alias_step fam width (oe_x86 e) (oe_mnem e) ops sg sg' -> alias_describe fam width full_of l sg sg'.
+Proof.
+  intros fam width full_of e He. apply entry_sound_alias. pose proof C06_operations_sound as H. rewrite Forall_forall in H. exact (H e He).
+Qed.
+Print Assumptions C06_operations_sound_with_aliasing.
+
+(* ANY instruction, with or without operation: a full-width register that is not reported is unchanged, provided only
+   architectural registers of destination registers change *)
+Theorem C06_unreported_fullwidth_unchanged : forall fam width full_of dests fulls ops isa l (sg sg' : astate),
+  get_reg_changes true dests fulls ops isa false = RcOk l -> fulls_ok fam full_of dests fulls ->
+  (forall f, (forall d, In d dests -> f <> fam d) -> sg' f = sg f) ->
+  forall r, is_full fam full_of r -> ~ In r (map fst l) -> aread fam width sg' r = aread fam width sg r.
+Proof. intros fam width full_of. exact (unreported_fullwidth_unchanged fam width full_of). Qed.
+Print Assumptions C06_unreported_fullwidth_unchanged.
+
+(* a sub-register write leaves NO constant claim about the full-width register: it is reported, with change None *)
+Theorem C06_subregister_write_no_constant_claim :
+  (forall dests fulls ops isa l f,
+     get_reg_changes true dests fulls ops isa false = RcOk l -> In f fulls ->
+     In (f, None) l /\ forall st, ~ In (f, Some st) l) /\
+  (forall fam full_of dests fulls ops isa l d,
+     get_reg_changes true dests fulls ops isa false = RcOk l -> fulls_ok fam full_of dests fulls ->
+     In d dests -> ~ is_full fam full_of d ->
+     In (full_of (fam d), None) l /\ forall st, ~ In (full_of (fam d), Some st) l).
+Proof. split; [exact subregister_write_no_claim|exact subregister_write_unknown]. Qed.
+Print Assumptions C06_subregister_write_no_constant_claim.
+
+(* the finding store-load-edge-spurious:subregister-write, in the model: without the full-width report (fulls = []) the dict
+   of `addl $8, %eax` does not describe the step in the aliasing semantics *)
+Theorem C06_without_fullwidth_report_refuted :
+  exists l sg sg',
+    get_reg_changes true ["eax"] [] ex_addl (Some ex_add_entry) false = RcOk l /\
+    alias_step ex_fam ex_width true "ADD" ex_addl sg sg' /\ ~ alias_describe ex_fam ex_width ex_full l sg sg'.
+Proof. exact without_fullwidth_report_refuted. Qed.
+Print Assumptions C06_without_fullwidth_report_refuted.
+
+(* the reported registers are exactly the destination registers and the full-width registers of written sub-registers,
+   each once *)
+Theorem C06_regchanges_only_destinations : forall dests fulls ops isa l,
+  get_reg_changes true dests fulls ops isa false = RcOk l ->
+  NoDup (map fst l) /\ forall r, In r (map fst l) <-> In r dests \/ In r fulls.
 Proof. exact rc_keys. Qed.
 Print Assumptions C06_regchanges_only_destinations.
 
 (* no ISA entry / no operation, no write-back: every destination register becomes unknown -- sound for any instruction
    that changes destination registers only *)
-Theorem C06_no_operation_tracking_sound : forall dests ops isa s rho0 rho rho',
+Theorem C06_no_operation_tracking_sound : forall dests fulls ops isa s rho0 rho rho',
   has_operation isa = false -> forallb no_wb ops = true -> plain_step dests rho rho' -> describes s rho0 rho ->
-  exists l cs, get_reg_changes true dests ops isa false = RcOk l /\ to_changes l = Some cs /\
+  exists l cs, get_reg_changes true dests fulls ops isa false = RcOk l /\ to_changes l = Some cs /\
                describes (update_changes s cs) rho0 rho'.
 Proof. exact plain_tracking_sound. Qed.
 Print Assumptions C06_no_operation_tracking_sound.
 
 (* AArch64 pre-index [b, #k]!: the base is reported as b + k *)
-Theorem C06_preindexed_tracking_sound : forall dests pre suf isa b k s rho0 rho rho',
+Theorem C06_preindexed_tracking_sound : forall dests fulls pre suf isa b k s rho0 rho rho',
   has_operation isa = false -> forallb no_wb pre = true -> forallb no_wb suf = true ->
   wb_step dests b k rho rho' -> describes s rho0 rho ->
-  exists l cs, get_reg_changes true dests (pre ++ IMem (Some b) (OffImm (Some k)) true PostFalse :: suf) isa false = RcOk l /\
+  exists l cs, get_reg_changes true dests fulls (pre ++ IMem (Some b) (OffImm (Some k)) true PostFalse :: suf) isa false = RcOk l /\
                to_changes l = Some cs /\ describes (update_changes s cs) rho0 rho'.
 Proof. exact preindexed_tracking_sound. Qed.
 Print Assumptions C06_preindexed_tracking_sound.
 
 (* AArch64 post-index [b], #v (or [b], xm): the two dicts of the scan, applied in the scan's order, follow the two
    architectural steps -- access with the old base (what is_memload of this very line sees), then the bump *)
-Theorem C06_postindexed_tracking_sound : forall dests pre suf isa b off p s rho0 rho rho_mid rho',
+Theorem C06_postindexed_tracking_sound : forall dests fulls pre suf isa b off p s rho0 rho rho_mid rho',
   let ops := (pre ++ IMem (Some b) off false p :: suf)%list in
   has_operation isa = false -> forallb no_wb pre = true -> forallb no_wb suf = true -> is_postdict p = true ->
   access_step dests b rho rho_mid -> bump_step b p rho_mid rho' -> describes s rho0 rho ->
   exists l cs lp cp,
-    get_reg_changes true dests ops isa false = RcOk l /\ to_changes l = Some cs /\
-    get_reg_changes true dests ops isa true = RcOk lp /\ to_changes lp = Some cp /\
+    get_reg_changes true dests fulls ops isa false = RcOk l /\ to_changes l = Some cs /\
+    get_reg_changes true dests fulls ops isa true = RcOk lp /\ to_changes lp = Some cp /\
     describes (update_changes s cs) rho0 rho_mid /\
     describes (update_changes (update_changes s cs) cp) rho0 rho'.
 Proof. exact postindexed_tracking_sound. Qed.
